@@ -30,6 +30,24 @@ Definition m_read_varint (b : bytes) : res (Z * Z) :=
 Definition varint_size (tag : Z) : Z :=
   if tag =? 253 then 3 else if tag =? 254 then 5 else if tag =? 255 then 9 else 1.
 
+(* Spec-level reading of an ACCEPTED parse: the commands explain every byte of the declared body -- an opcode is its byte, a data
+   element is a push header (1..75, PUSHDATA1 n, PUSHDATA2 lo hi) whose declared length is the element's length, followed by
+   exactly the element; nothing is left over.  (An element shorter than its header declares = a truncated push was accepted.) *)
+Fixpoint explains (cmds : list cmd) (body : bytes) : bool :=
+  match cmds with
+  | [] => match body with [] => true | _ => false end
+  | Op o :: r => match body with x :: rest => (x =? o) && explains r rest | [] => false end
+  | Data d :: r =>
+      let n := List.length d in
+      let payload rest := (n <=? List.length rest)%nat && beq_bytes (firstn n rest) d && explains r (skipn n rest) in
+      match body with
+      | 76 :: l :: rest => (l =? Z.of_nat n) && payload rest
+      | 77 :: lo :: hi :: rest => (lo + 256 * hi =? Z.of_nat n) && payload rest
+      | x :: rest => (1 <=? x) && (x <=? 75) && (x =? Z.of_nat n) && payload rest
+      | [] => false
+      end
+  end.
+
 Definition check_case (c : case) : Z :=
   match c with
   | Ser ecmds raw ser back =>
@@ -65,7 +83,11 @@ Definition check_case (c : case) : Z :=
                 let vs := varint_size tag in
                 let declared := if tag <? 253 then tag
                                 else le2z (firstn (Z.to_nat (vs - 1)) (skipn 1 b)) in
-                (vs <=? Z.of_nat (List.length b)) && (pos =? vs + declared) && (pos <=? Z.of_nat (List.length b))
+                (vs <=? Z.of_nat (List.length b)) && (pos =? vs + declared) && (pos <=? Z.of_nat (List.length b)) &&
+                match r' with
+                | Ok (cmds, _) => explains cmds (firstn (Z.to_nat declared) (skipn (Z.to_nat vs) b))
+                | Err => true
+                end
             end
         end in
       verdict agrees prop
